@@ -127,8 +127,8 @@ class BuiltinMixin:
         elif isinstance(a, StrV):
             try:
                 yield st, self.lift(float(a.s))
-            except (ValueError, Unsupported):
-                raise Unsupported(f"float({a.s!r})")
+            except ValueError:
+                yield st, RaiseV(self.exc("ValueError", "could not convert string to float"))
         elif isinstance(a, NoneV):
             yield st, RaiseV(self.exc("TypeError", "float() argument None"))
         else:
